@@ -11,14 +11,16 @@ LEVEL = "exploration"
 EXHAUSTIVE = True
 RULE = (
     "finite space, enumerated completely: every ast.stmt subclass of the running interpreter "
-    "outside {Assign, AugAssign, Expr, Return, Pass, Break, Continue, If, While, For} (built as "
-    "AST nodes so that parse-time restrictions hide nothing) x nine structural positions (top "
+    "outside {Assign, AugAssign, Expr, Return, Pass, Break, Continue, If, While, For} (1-4 variants "
+    "per class, e.g. a nested def named like the enclosing function, try/finally, multi-item "
+    "with; built as AST nodes so that parse-time restrictions hide nothing, and fed both as AST "
+    "list and as source text) x nine structural positions (top "
     "level first / middle / last, if-arm, else-arm, loop body, loop else, after a loop, nested two "
     "levels deep) x three carrier functions; AST2SCFG (through the M-a2s recorder, which confirms "
     "the node reached handle_ast_node) must raise NotImplementedError; any graph returned or any "
     "other exception is a violation. Non-function inputs (module of statements, class, async def, "
     "lambda source, empty string, expression) must be refused with any exception. distinct = "
-    "(statement class, position, carrier); non-trivial = the unsupported node was dispatched to "
+    "(statement class, variant, position, carrier); non-trivial = the unsupported node was dispatched to "
     "handle_ast_node (or the input is a non-function)"
 )
 ASSUMPTIONS = [
@@ -42,28 +44,53 @@ def _s(src):
 
 
 def templates():
-    """name -> constructor of one statement node of that class."""
+    """name -> list of constructors, each building one statement node of that
+    class (several variants per class: plain, sharing the carrier's name, with
+    the optional parts of the grammar)."""
     t = {
-        "FunctionDef": lambda: _s("def g(q):\n    ext(100, q)\n    return q\n"),
-        "AsyncFunctionDef": lambda: _s("async def g(q):\n    return q\n"),
-        "ClassDef": lambda: _s("class G:\n    z = ext(100, 1)\n"),
-        "Delete": lambda: _s("del x"),
-        "AnnAssign": lambda: _s("x: int = ext(100, 1)"),
-        "AsyncFor": lambda: ast.AsyncFor(target=ast.Name("q", ast.Store()), iter=_e("it(100, 2)"),
-                                         body=[_s("ext(101, q)")], orelse=[]),
-        "With": lambda: _s("with ext(100, a) as q:\n    ext(101, q)\n"),
-        "AsyncWith": lambda: ast.AsyncWith(items=[ast.withitem(_e("ext(100, a)"), None)],
-                                           body=[_s("ext(101, 1)")]),
-        "Match": lambda: _s("match a:\n    case 1:\n        ext(100, 1)\n    case _:\n        ext(101, 2)\n"),
-        "Raise": lambda: _s("raise ValueError(ext(100, 1))"),
-        "Try": lambda: _s("try:\n    ext(100, 1)\nexcept Exception:\n    ext(101, 2)\n"),
-        "TryStar": lambda: _s("try:\n    ext(100, 1)\nexcept* Exception:\n    ext(101, 2)\n"),
-        "Assert": lambda: _s("assert ext(100, a)"),
-        "Import": lambda: _s("import os"),
-        "ImportFrom": lambda: _s("from os import path"),
-        "Global": lambda: _s("global zz"),
-        "Nonlocal": lambda: ast.Nonlocal(names=["zz"]),
-        "TypeAlias": lambda: _s("type T = int"),
+        "FunctionDef": [
+            lambda: _s("def g(q):\n    ext(100, q)\n    return q\n"),
+            # a nested function called like the enclosing one (recursive helper)
+            lambda: _s("def f(a, b):\n    ext(100, a)\n    return a\n"),
+            lambda: _s("def f():\n    pass\n"),
+            lambda: _s("@ext\ndef g():\n    return 1\n"),
+        ],
+        "AsyncFunctionDef": [
+            lambda: _s("async def g(q):\n    return q\n"),
+            lambda: _s("async def f(a, b):\n    return a\n"),
+        ],
+        "ClassDef": [
+            lambda: _s("class G:\n    z = ext(100, 1)\n"),
+            lambda: _s("class f:\n    pass\n"),
+        ],
+        "Delete": [lambda: _s("del x"), lambda: _s("del a[0]")],
+        "AnnAssign": [lambda: _s("x: int = ext(100, 1)"), lambda: _s("x: int")],
+        "AsyncFor": [lambda: ast.AsyncFor(target=ast.Name("q", ast.Store()),
+                                          iter=_e("it(100, 2)"),
+                                          body=[_s("ext(101, q)")], orelse=[])],
+        "With": [
+            lambda: _s("with ext(100, a) as q:\n    ext(101, q)\n"),
+            lambda: _s("with ext(100, a), ext(101, b):\n    x = 1\n"),
+        ],
+        "AsyncWith": [lambda: ast.AsyncWith(items=[ast.withitem(_e("ext(100, a)"), None)],
+                                            body=[_s("ext(101, 1)")])],
+        "Match": [
+            lambda: _s("match a:\n    case 1:\n        ext(100, 1)\n    case _:\n        ext(101, 2)\n"),
+            lambda: _s("match a:\n    case [p, q] if p:\n        x = p\n"),
+        ],
+        "Raise": [lambda: _s("raise ValueError(ext(100, 1))"), lambda: ast.Raise(None, None)],
+        "Try": [
+            lambda: _s("try:\n    ext(100, 1)\nexcept Exception:\n    ext(101, 2)\n"),
+            lambda: _s("try:\n    x = 1\nfinally:\n    y = 2\n"),
+            lambda: _s("try:\n    x = 1\nexcept ValueError:\n    pass\nelse:\n    y = 2\n"),
+        ],
+        "TryStar": [lambda: _s("try:\n    ext(100, 1)\nexcept* Exception:\n    ext(101, 2)\n")],
+        "Assert": [lambda: _s("assert ext(100, a)"), lambda: _s("assert a, 'message'")],
+        "Import": [lambda: _s("import os"), lambda: _s("import os.path as x")],
+        "ImportFrom": [lambda: _s("from os import path"), lambda: _s("from os import path as x")],
+        "Global": [lambda: _s("global zz"), lambda: _s("global x")],
+        "Nonlocal": [lambda: ast.Nonlocal(names=["zz"])],
+        "TypeAlias": [lambda: _s("type T = int")],
     }
     return t
 
@@ -127,31 +154,48 @@ def run_shard(spec):
             ctx.inconc("no_constructor_template", name)
             acc.add_ctx(ctx, {"kind": "unsupported", "stmt": name})
             continue
-        for ci, carrier in enumerate(CARRIERS):
+        for vi, make in enumerate(tmpl[name]):
+          for ci, carrier in enumerate(CARRIERS):
             for pi, pos in enumerate(POSITIONS):
-                if single and (single["stmt"], single["carrier"], single["position"]) != (name, ci, pos):
+                if single and (single["stmt"], single.get("variant", 0), single["carrier"],
+                               single["position"]) != (name, vi, ci, pos):
                     continue
                 try:
-                    node = tmpl[name]()
+                    node = make()
                 except SyntaxError:
                     continue
                 fn = build(carrier, pi, node)
                 if fn is None:
                     continue
-                case = {"kind": "unsupported", "stmt": name, "carrier": ci, "position": pos}
+                case = {"kind": "unsupported", "stmt": name, "variant": vi, "carrier": ci,
+                        "position": pos}
                 ctx = core.set_ctx(core.Ctx(None))
                 acc.counters["stmt." + name] += 1
                 acc.counters["position." + pos] += 1
                 outcome = None
+                # both input forms: a list of AST nodes and source text
+                forms = [("ast", lambda: [fn])]
                 try:
-                    AST2SCFG([fn])
-                    outcome = "graph_returned"
-                except NotImplementedError:
-                    outcome = "refused"
-                except RecursionError:
-                    outcome = "other_exception:RecursionError"
-                except Exception as e:
-                    outcome = "other_exception:" + type(e).__name__
+                    src_text = ast.unparse(fn)
+                    ast.parse(src_text)
+                    forms.append(("source", lambda: src_text))
+                except Exception:
+                    pass
+                for form, arg in forms:
+                    try:
+                        AST2SCFG(arg())
+                        outcome = "graph_returned"
+                    except NotImplementedError:
+                        outcome = "refused"
+                    except RecursionError:
+                        outcome = "other_exception:RecursionError"
+                    except Exception as e:
+                        outcome = "other_exception:" + type(e).__name__
+                    if outcome != "refused":
+                        break
+                    if form == "ast":
+                        # the transformer rewrites the tree in place: rebuild it
+                        fn = build(carrier, pi, make())
                 nodes = ctx.data.get("a2s_nodes", {})
                 dispatched = nodes.get(name, 0) > 0
                 if dispatched:
@@ -162,12 +206,13 @@ def run_shard(spec):
                     except Exception:
                         src = "<unparse failed>"
                     ctx.violation("C11", f"{outcome}:{name}", {"position": pos, "carrier": ci,
+                                                               "variant": vi, "form": form,
                                                                "source": src[:600]})
                 elif not dispatched and pos != "last_statement":
                     # refused, but for another reason than the statement under test
                     ctx.hit("c11.refused_before_dispatch")
-                nt = core.sha([name, ci, pos]) if (dispatched or pos == "last_statement") else None
-                acc.add_ctx(ctx, case, nontrivial_hash=nt, sample=(acc.evaluations % 41 == 0))
+                nt = core.sha([name, vi, ci, pos]) if (dispatched or pos == "last_statement") else None
+                acc.add_ctx(ctx, case, nontrivial_hash=nt, sample=(acc.evaluations % 97 == 0))
     # non-function inputs
     nonfn = {
         "module_with_assignment": "x = 1\n",
